@@ -94,9 +94,26 @@ func pickByEnv(v ssa.Value, env map[*ssa.Parameter]ssa.Value) ssa.Value {
 
 func bitmapFieldEnv(c *ssa.Call, env map[*ssa.Parameter]ssa.Value) string {
 	recv := strip(pickByEnv(strip(c.Common().Args[0]), env))
+	// a bitmap passed by value is spilled into a local of the helper before its address is taken
+	if al, ok := recv.(*ssa.Alloc); ok && al.Referrers() != nil {
+		var src ssa.Value
+		n := 0
+		for _, ref := range *al.Referrers() {
+			if st, isSt := ref.(*ssa.Store); isSt && st.Addr == ssa.Value(al) {
+				src = st.Val
+				n++
+			}
+		}
+		if p, isP := src.(*ssa.Parameter); isP && n == 1 {
+			recv = p
+		}
+	}
 	if p, ok := recv.(*ssa.Parameter); ok && env != nil {
 		if av, bound := env[p]; bound {
 			recv = strip(av)
+			if u, isLoad := recv.(*ssa.UnOp); isLoad && u.Op == token.MUL {
+				recv = u.X // the bitmap value was loaded from a field
+			}
 		}
 	}
 	if fa, ok := recv.(*ssa.FieldAddr); ok {
